@@ -8,6 +8,8 @@ def run(v):
     # Lifecycle.tla: explicit close() at any moment relative to reconnects, losses and requests (incl. racing calls), replayed on
     # the real client; the recorded paths are judged by the monitors of RSocket.tla
     lifecycle.check(v, ('C11.',), 'Lifecycle_close.cfg')
+    # ... and fire-and-forget calls whose frame is still queued / half-written behind a transport that does not accept writes
+    lifecycle.check(v, ('C11.',), 'Lifecycle_fnf.cfg', wide='Lifecycle_fnf_wide.cfg', label='lifecycle_fnf')
     # ServerLifecycle.tla: the same for a server-side connection (close() by the server application racing requests either way / the loss)
     lifecycle.check_server(v, ('C11.',))
     conn.check(v, 'C11', families.FAMILIES['C11'])
